@@ -6,11 +6,14 @@ updated "newest wins":
 * learn(snet, router, dnets)           every named destination now leads to `router` (whoever had it loses it)
 * forget_router(snet, router)          every destination that led to `router` on `snet` is gone, nothing else
 * forget_dnets(snet, dnets)            the named destinations on `snet` are gone, nothing else
-* forget_router_dnets(snet, r, dnets)  the named destinations are gone *where they led to r*, nothing else
+* forget_router_dnets(snet, r, dnets)  the named destinations are gone *where they led to r*, nothing else (a listed
+                                       destination that leads to another router, or to nobody, is not touched)
 * renumber(old, new)                   every (old, d) becomes (new, d); `new` must not be in use
 
 plus the small amount of node state needed for the through-the-wire part (which port carries which
-network number, and whether that number was configured or learned) and an NPDU parser / builder written
+network number, whether that number was configured or learned, and which application packets were handed to
+the node while it knew no path to their destination network and have not been seen on a LAN yet) and an NPDU
+parser / builder written
 from clause 6.2 (NPCI layout) and 6.4 (message types), so that frames can be built and judged without the
 codec under test.
 """
@@ -103,6 +106,11 @@ class NodeRef(object):
     def __init__(self, nets):
         self.ports = [PortRef(n) for n in nets]
         self.routes = RouteRef()
+        # application traffic handed to the node during the history: tag -> destination network, the tags not yet
+        # seen on a LAN per destination network (in the order they were handed over) and the tags seen
+        self.tags = {}
+        self.waiting = {}
+        self.delivered = set()
 
     def net(self, port):
         return self.ports[port].net
@@ -132,6 +140,44 @@ class NodeRef(object):
             if r is not None:
                 out.append((i, r))
         return out
+
+    # -- application traffic of the history ("traffic sent afterwards follows the current knowledge")
+    #    A packet for a network the node knows a path to goes out at once.  A packet for a network without a known
+    #    path cannot go anywhere: the node asks Who-Is-Router-To-Network (once per network it is waiting for) and
+    #    holds the packet.  From the moment the node knows a path nothing is held for that network any more: what was
+    #    held is on the wire towards a current next hop, each packet once.
+
+    def hand_over(self, dnet, tag):
+        """The application hands a packet to the node.  -> 'forward' | 'hold+ask' | 'hold'."""
+        self.tags[tag] = dnet
+        if self.next_hops(dnet):
+            self.waiting.setdefault(dnet, []).append(tag)      # expected on the wire within this very step
+            return "forward"
+        first = not self.waiting.get(dnet)
+        self.waiting.setdefault(dnet, []).append(tag)
+        return "hold+ask" if first else "hold"
+
+    def seen_on_wire(self, tag):
+        """A packet of the history was observed on a LAN.  -> True if that is its first appearance."""
+        first = tag not in self.delivered
+        self.delivered.add(tag)
+        lst = self.waiting.get(self.tags[tag], [])
+        if tag in lst:
+            lst.remove(tag)
+        return first
+
+    def held(self, dnet):
+        return list(self.waiting.get(dnet, ()))
+
+    def held_total(self):
+        return sum(len(v) for v in self.waiting.values())
+
+    def held_counts(self):
+        return tuple(sorted((d, len(v)) for d, v in self.waiting.items() if v))
+
+    def overdue(self):
+        """Destination networks with a known path for which packets are still held (must be empty in a sound state)."""
+        return sorted(d for d, v in self.waiting.items() if v and self.next_hops(d))
 
 
 # --------------------------------------------------------------------------- NPDU octets (clause 6.2, 6.4)
